@@ -660,6 +660,54 @@ pub fn decode_inputs(tier: Tier) -> Vec<ByteFamily> {
             }),
         });
     }
+    // (8c3) string arguments filled with bytes that are not valid UTF-8, of lengths around 65535/f and
+    // 65536/f for f = 1..6 (a decoder that replaces or escapes such bytes multiplies the length)
+    {
+        let mut lens: Vec<usize> = vec![];
+        for f in 1..=6usize {
+            for base in [65_535 / f, 65_536 / f] {
+                for d in 0..9usize {
+                    let l = base + d;
+                    if l >= 4 && l - 4 <= 65_500 {
+                        lens.push(l - 4);
+                    }
+                }
+            }
+        }
+        lens.sort_unstable();
+        lens.dedup();
+        let nl = lens.len();
+        let sp = Space::new(&[nl, 3, 2, 2]);
+        let s2 = sp.clone();
+        fams.push(ByteFamily {
+            name: "dialect.invalid_filled".into(),
+            about: format!("a string argument (with / without variable name) of L bytes that are all 0xFF / all 0xE4 / 'a' + 0xE4 alternating, for {} lengths L around 65535/f and 65536/f (f = 1..6), x byte order; LEN covers the argument", nl),
+            size: sp.size(),
+            gen: Box::new(move |i| {
+                let c = s2.coords(i);
+                let big = c[3] == 1;
+                let vari = c[2] == 1;
+                let l = lens[c[0]].min(65_535 - 14 - 4 - 2 - if vari { 4 } else { 0 });
+                let ti: u32 = TI_STRG | (1 << 15) | if vari { TI_VARI } else { 0 };
+                let mut b = vec![if big { 0x23 } else { 0x21 }, 0, 0, 0, 0x41, 1, b'A', b'P', b'P', 0, b'C', b'T', b'X', 0];
+                b.extend_from_slice(&if big { ti.to_be_bytes() } else { ti.to_le_bytes() });
+                b.extend_from_slice(&if big { (l as u16).to_be_bytes() } else { (l as u16).to_le_bytes() });
+                if vari {
+                    b.extend_from_slice(&if big { 2u16.to_be_bytes() } else { 2u16.to_le_bytes() });
+                    b.extend_from_slice(b"n\0");
+                }
+                b.extend((0..l).map(|k| match c[1] {
+                    0 => 0xFFu8,
+                    1 => 0xE4,
+                    _ => if k % 2 == 0 { b'a' } else { 0xE4 },
+                }));
+                let len = b.len();
+                b[2] = (len >> 8) as u8;
+                b[3] = len as u8;
+                b
+            }),
+        });
+    }
     // (8d) every truncation of dialect inputs (non-canonical but accepted encodings must be
     // 'incomplete' at every cut as well)
     {
